@@ -29,10 +29,13 @@ Inductive op1 :=
 | OAddState                   (* inside a loop body: (k, v) -> (k, v + state); outside: identity with state 0 *)
 | ONested (n limit : Z) (body : list op1)    (* a replay loop nested in a loop body; its own state starts at 0 *)
 | ONestedO (n limit : Z) (body : list op1)   (* as ONested, but the ops of the body read the ENCLOSING state *)
-| OJoinSide (v : jvar) (lo : jlocal) (side : list P).
+| OJoinSide (v : jvar) (lo : jlocal) (side : list P)
     (* hash-shipped join of the current stream (left) with the constant list [side] (right): a
        stream defined outside the loop and joined inside the body; it is cached and replayed
        every round *)
+| OJoinSideL (v : jvar) (lo : jlocal) (side : list P).
+    (* the mirrored form: the constant SIDE INPUT is the LEFT side of the join and the current
+       stream the right one (JvLeft keeps the unmatched side elements, JvOuter both) *)
 
 Inductive pipe :=
 | PSrc (par : bool) (xs : list P)
@@ -113,6 +116,7 @@ Fixpoint ev1 (state : Z) (o : op1) (xs : list P) {struct o} : list P :=
                      end) in
       [(0, loop (Z.to_nat (Z.max n 1)) 0 0)]
   | OJoinSide v _ side => ev_join v xs side
+  | OJoinSideL v _ side => ev_join v side xs
   end.
 Definition ev_ops (state : Z) (os : list op1) (xs : list P) : list P :=
   fold_left (fun acc o => ev1 state o acc) os xs.
